@@ -91,4 +91,19 @@ PROPS = {
                       'against the real decoders + resolver.',
         'level_note': 'Trusted: Lean kernel; Kitex discovery types; the extractor; the correspondence harness.',
     },
+    'C15': {
+        'rule': 'every combination of: listener lookup and named-route-table lookup each answered with a value / an error / absent / a typed nil / (nil,nil); inline table present, empty or absent; '
+                'routes that match or not; cluster lists empty, zero-total, single, or with exactly one non-zero weight (deterministic pick); destination already decided or not; step = routing middleware or '
+                'retry-key computation (with and without method matching; the key used is observed through marker policies); plus 4 end-to-end cases through the real manager and scripted control plane '
+                '(listener supplied / withheld, name table required / not). Non-trivial: anything but the plain "undecided and routable" case',
+        'assumptions': COMMON_ASSUME + [
+            'typed-nil and (nil,nil) lookup answers are outside the property: the resource manager never produces them (C05); there only model == implementation is checked (both panic)',
+            'Kitex remoteinfo tag locking, rpcinfo and retry.Container are trusted',
+        ],
+        'level_text': 'Theorems: undecided + route found => tag = cluster, locked, timeout = route timeout, passed on exactly once; decided => nothing changes and the router is not consulted; no route => ErrRoute, '
+                      'not passed on, still undecided; the retry-key computation makes the same decision; and for all lookup answers that are errors or values of the requested kind, all tables, metadata and '
+                      'draws, Route / the middleware / the retry key never panic (uses C09.never_panics and the regenerated pick facts). The composite XDSRouter.Route = matchRoute ; pickCluster is the C08 and C09 models. '
+                      'Validated against the real middleware and retry container with a stub manager failing each lookup in each way, and end to end through the real manager.',
+        'level_note': 'Trusted: Lean kernel; Kitex rpcinfo/remoteinfo/retry; correspondence harness. Resolver no-panic is covered by C10 (its lookups are typed in the model) and by the harness recovering panics.',
+    },
 }
